@@ -305,3 +305,4 @@ also("C20", "Also: Weekday and Month, like the date and time types, write a stri
 _Y = "Also: write_rfc3339's signed-year format template is one zero-padded placeholder of width 5, read relative to the 3 / 6 / 9 fraction templates of the same function."
 also("C10", _Y)
 also("C12", _Y)
+also("C16", "Also: parser::parse enables the footer-string extensions for Version::V3 only (read from the `== Version::V3` argument or from a match on the version that selects the flag; other spellings are left undecided).")
